@@ -135,12 +135,64 @@ def _pick_impl(I, key, v):
     return (same or hit or c)[0]
 
 
+def _ty_args(ty):
+    """'Option<(usize, char)>' -> ('Option', ['(usize, char)']); '(a, b)' -> ('tuple', ['a', 'b']); '[u8; 2]' / '[u8]' -> ('slice', ['u8'])"""
+    ty = ty.strip()
+    while ty.startswith("&"): ty = ty[1:].lstrip()
+    if ty.startswith("mut "): ty = ty[4:]
+    if ty.startswith("'"):
+        ty = ty.split(" ", 1)[1] if " " in ty else ty
+    def split(body):
+        out = []; d = 0; cur = ""
+        for ch in body:
+            if ch in "<([": d += 1
+            elif ch in ">)]": d -= 1
+            if ch == "," and d == 0: out.append(cur.strip()); cur = ""
+            else: cur += ch
+        if cur.strip(): out.append(cur.strip())
+        return out
+    if ty.startswith("(") and ty.endswith(")"): return "tuple", split(ty[1:-1])
+    if ty.startswith("[") and ty.endswith("]"): return "slice", [ty[1:-1].split(";")[0].strip()]
+    if "<" in ty and ty.endswith(">"):
+        i = ty.index("<"); return ty[:i].split("::")[-1], [a for a in split(ty[i + 1:-1]) if not a.startswith("'")]
+    return ty.split("::")[-1], []
+
+
+def _sub(I, v, kind, ty): return render(I, Agg([v], f"FmtArg:{kind}:{ty}"), Opt())
+
+
 def render(I, arg, opt):
     """-> list of bytes (ints / z3 8-bit expressions)"""
     _, kind, ty = arg.ty.split(":", 2)
     v = _deref_all(I, arg.f[0])
     t = type(v)
-    hexk = kind in ("new_lower_hex", "new_upper_hex")
+    head, targs = _ty_args(ty) if ty else ("", [])
+    if kind == "new_debug":
+        # structured values whose element types are known from the static type
+        if t is Agg and v.ty == "tuple" and len(v.f) >= 1 and not isinstance(v.f, tuple) or (t is Agg and v.ty == "tuple" and head == "tuple"):
+            fs = list(v.f)
+            tys = targs if head == "tuple" and len(targs) == len(fs) else [""] * len(fs)
+            out = [0x28]
+            for i, (x, xt) in enumerate(zip(fs, tys)):
+                if i: out += list(b", ")
+                out += _sub(I, x, kind, xt)
+            if len(fs) == 1: out.append(0x2C)
+            return out + [0x29]
+        if t is Agg and v is UNIT and head in ("tuple", "") and not targs: return list(b"()")
+        if t is Enum and v.ty == "Option":
+            return list(b"None") if v.idx == 0 else list(b"Some(") + _sub(I, v.f[0], kind, targs[0] if head == "Option" and targs else "") + [0x29]
+        if t is Enum and v.ty == "Result":
+            a = (targs + ["", ""])[:2] if head == "Result" else ["", ""]
+            return (list(b"Ok(") + _sub(I, v.f[0], kind, a[0]) if v.idx == 0 else list(b"Err(") + _sub(I, v.f[0], kind, a[1])) + [0x29]
+        if (t is VecObj and v.ty != "String") or (t is SliceRef and not v.is_str) or (t is Agg and v.ty == "array"):
+            items = list(v.items()) if t is SliceRef else list(v.f)
+            et = targs[0] if head in ("Vec", "slice", "VecDeque") and targs else ""
+            out = [0x5B]
+            for i, x in enumerate(items):
+                if i: out += list(b", ")
+                out += _sub(I, x, kind, et)
+            return out + [0x5D]
+    hexk = kind in ("new_lower_hex", "new_upper_hex", "new_binary", "new_octal")
     if t is int or (is_sym(v) and z3.is_bv(v)):
         tn = ty.lstrip("&")
         if tn == "char" and kind == "new_display":
@@ -148,13 +200,15 @@ def render(I, arg, opt):
         if tn == "char":
             c = I.W.choose(v)
             return _pad(I, _escape_debug_str(chr(c).encode(), "'"), opt, False)
+        if tn == "bool":
+            return _pad(I, list(b"true" if (v if not is_sym(v) else I.W.choose(v)) else b"false"), opt, False)
         if _INT.match(ty) or ty == "" or re.match(r"^&*[A-Z]\w*$", ty):       # a generic parameter holding an integer: printed as unsigned
             c = I.W.choose(v, 0, 1 << 64)
             w = _W.get(tn, 64)
             if tn.startswith("i") and c >= 1 << (w - 1): c -= 1 << w
             if hexk:
-                txt = format(c & ((1 << w) - 1), "x" if kind == "new_lower_hex" else "X")
-                if opt.flags & (1 << 23): txt = "0x" + txt
+                txt = format(c & ((1 << w) - 1), {"new_lower_hex": "x", "new_upper_hex": "X", "new_binary": "b", "new_octal": "o"}[kind])
+                if opt.flags & (1 << 23): txt = {"new_binary": "0b", "new_octal": "0o"}.get(kind, "0x") + txt
             else:
                 txt = str(c)
                 if opt.flags & (1 << 21) and c >= 0: txt = "+" + txt
@@ -403,3 +457,9 @@ def _(I, bp, x):
 def _(I, bp):
     b = _builder(I, bp); _fm(I, b.f[0]).f[0].f.extend(b"]")
     return ok(UNIT)
+
+
+S["<char as ToString>::to_string"] = lambda I, c: VecObj(list(encode_char(I, I.deref(c) if type(unwrap_ptr(c)) is Ptr else c)), "String")
+for _t in _W:
+    S[f"<{_t} as ToString>::to_string"] = (lambda t_: (lambda I, v: VecObj(render(I, Agg([v], f"FmtArg:new_display:{t_}"), Opt()), "String")))(_t)
+S["<bool as ToString>::to_string"] = lambda I, v: VecObj(render(I, Agg([v], "FmtArg:new_display:bool"), Opt()), "String")
